@@ -23,7 +23,7 @@
        refinement C09_model_refines_spec).  Checked on every run by
        comparing complete model traces with the implementation and judging the implementation traces with (B). *)
 From PS Require Import Lib.Base Generated.Consts Model.SdTypes Model.Config Model.Session Model.StackTypes
-  Model.Stack Model.StackIO Spec.TraceSpec Spec.StoreSpec Proofs.StoreSpecProofs Proofs.TimedStoreProofs Proofs.KeyEquiv Proofs.WorldInv Proofs.WorldInv2 Proofs.WorldTime.
+  Model.Stack Model.StackIO Spec.TraceSpec Spec.StoreSpec Proofs.StoreSpecProofs Proofs.TimedStoreProofs Proofs.KeyEquiv Proofs.WorldInv Proofs.WorldInv2 Proofs.WorldTime Proofs.WorldDone.
 
 Section A.
   Context {K : Type} (keqb : K -> K -> bool) (keqb_eq : forall a b, keqb a b = true <-> a = b).
@@ -111,6 +111,23 @@ Proof. exact reachable_on_time. Qed.
 Theorem C09_callbacks_never_move_the_clock_nor_arm_the_past : forall h w, ext w (exec h w).
 Proof. exact E_exec. Qed.
 
+(* "never late", end to end: when a run of ANY scenario completes (nothing runnable, next deadline beyond the end), every
+   finite-TTL entry still stored has its expiry timer pending with a deadline after the end; every open collector and
+   every sleeping task likewise.  Nothing that was due by the end has been left undone. *)
+Theorem C09_completed_run_leaves_nothing_overdue : forall s sc, d_scenario s = Some sc ->
+  let w := fst (run_scenario sc) in
+  snd (run_scenario sc) = true ->
+  (forall st a k tid, In (k, Some tid) (inner a (get_store st w)) ->
+     exists when, In (when, tid, HExpired st a k) (timers w) /\ sc_end sc < when)
+  /\ (forall c, open_coll w c = true -> exists when, In (when, c, HCollector c) (timers w) /\ sc_end sc < when)
+  /\ (forall t tid, sleep_of w t = Some tid -> exists when, In (when, tid, HSleepDone t) (timers w) /\ sc_end sc < when).
+Proof. exact completed_scenario_nothing_overdue. Qed.
+Theorem C09_completed_run_is_quiescent : forall fuel events t_end rv w w',
+  run fuel events t_end rv w = (w', true) -> ready w' = [] /\ live_after t_end w'.
+Proof. exact run_complete. Qed.
+
+Print Assumptions C09_completed_run_leaves_nothing_overdue.
+Print Assumptions C09_completed_run_is_quiescent.
 Print Assumptions C09_timer_invariant.
 Print Assumptions C09_refresh_arms_exactly_the_deadline.
 Print Assumptions C09_infinite_ttl_arms_nothing.
